@@ -67,6 +67,42 @@ def split_args(s):
     return out
 
 
+def lexer_bump_unit(F, res, rule="L1"):
+    """lex_string advances the lexer by a BYTE length: every value that flows into Lexer::bump comes from byte
+    quantities (char::len_utf8, str/slice len, char_indices offsets), never from a character count.
+    (Lexer::bump panics on an offset that is past the end or inside a character: C02 shares this rule.)"""
+    ls = F.fn("syntax::lexer::lex_string")
+    d = FL.Defs(ls)
+    bumps = [(b, t) for b, t in ls.calls() if FL.short(callee(t) or callee_def(t)) == "Lexer::bump"]
+    contributing = set()
+    for b, t in bumps:
+        seen_l, st = set(), [t["args"][1]]
+        while st:
+            op = st.pop()
+            pl = op_place(op)
+            if pl is None or pl["l"] in seen_l:
+                continue
+            seen_l.add(pl["l"])
+            for dd in d.defs.get(pl["l"], []):
+                if dd[2] == "call":
+                    contributing.add(FL.short(callee(dd[3]) or callee_def(dd[3])))
+                    st.extend(dd[3]["args"])
+                else:
+                    rv = dd[3]["rv"]
+                    for key in ("op", "a", "b"):
+                        if isinstance(rv.get(key), dict):
+                            st.append(rv[key])
+                    if "place" in rv:
+                        st.append({"cp": rv["place"]})
+                    st.extend(rv.get("ops", []))
+    byte_src = {c for c in contributing if c in ("char::len_utf8", "str::len", "[T]::len", "str::as_bytes", "CharIndices::next", "Iterator::next")
+                and c != "Iterator::next"} | {c for c in contributing if c.endswith("len_utf8") or c.endswith("::len")}
+    char_cnt = {c for c in contributing if "Enumerate" in c or c.endswith("::count") or c.endswith("chars().count")}
+    res.ob(rule, "lex_string-bumps-bytes", "lex_string advances the lexer by a byte length (len_utf8 / len of bytes), never by a character count",
+           bool(bumps) and bool(byte_src) and not char_cnt, where=ls.loc(),
+           how="values flowing into Lexer::bump come from %s" % sorted(contributing))
+
+
 def lexer_rules(F, res):
     va = [x for x in F.units["syntax-rlib"].get("variant_attrs", []) if x[0] == "SyntaxKind"]
     if not va:
@@ -116,37 +152,7 @@ def lexer_rules(F, res):
     ls = F.fn("syntax::lexer::lex_string")
     res.ob("L1", "lex_string-bool", "lex_string returns bool (false turns the input into the #[error] token, nothing is dropped)",
            ls.d.get("output") == "bool", where=ls.loc(), how="returns %s" % ls.d.get("output"))
-    # lex_string advances the lexer by a BYTE length: every value that flows into Lexer::bump comes from byte
-    # quantities (char::len_utf8, str/slice len, char_indices offsets), never from a character count
-    d = FL.Defs(ls)
-    bumps = [(b, t) for b, t in ls.calls() if FL.short(callee(t) or callee_def(t)) == "Lexer::bump"]
-    contributing = set()
-    for b, t in bumps:
-        seen_l, st = set(), [t["args"][1]]
-        while st:
-            op = st.pop()
-            pl = op_place(op)
-            if pl is None or pl["l"] in seen_l:
-                continue
-            seen_l.add(pl["l"])
-            for dd in d.defs.get(pl["l"], []):
-                if dd[2] == "call":
-                    contributing.add(FL.short(callee(dd[3]) or callee_def(dd[3])))
-                    st.extend(dd[3]["args"])
-                else:
-                    rv = dd[3]["rv"]
-                    for key in ("op", "a", "b"):
-                        if isinstance(rv.get(key), dict):
-                            st.append(rv[key])
-                    if "place" in rv:
-                        st.append({"cp": rv["place"]})
-                    st.extend(rv.get("ops", []))
-    byte_src = {c for c in contributing if c in ("char::len_utf8", "str::len", "[T]::len", "str::as_bytes", "CharIndices::next", "Iterator::next")
-                and c != "Iterator::next"} | {c for c in contributing if c.endswith("len_utf8") or c.endswith("::len")}
-    char_cnt = {c for c in contributing if "Enumerate" in c or c.endswith("::count") or c.endswith("chars().count")}
-    res.ob("L1", "lex_string-bumps-bytes", "lex_string advances the lexer by a byte length (len_utf8 / len of bytes), never by a character count",
-           bool(bumps) and bool(byte_src) and not char_cnt, where=ls.loc(),
-           how="values flowing into Lexer::bump come from %s" % sorted(contributing))
+    lexer_bump_unit(F, res)
     res.ob("L1", "error-variant", "#[error] is attached to ERROR", any("#[error]" in t for t in by.get("ERROR", [])),
            where="crates/syntax/src/kind.rs", how=str(by.get("ERROR")))
     res.ob("L1", "eof-not-lexed", "kind EOF carries no lexer rule (so eof() and nth()==EOF mean end of input)",
